@@ -149,3 +149,19 @@ Definition has_ok_head (t : tmpl) : bool :=
   | Some s => hasPrefixb ok_true_prefix s || hasPrefixb ok_false_prefix s
   | None => false
   end.
+
+(* ---------- fragments of replies assembled across functions ---------- *)
+
+(* contexts a single write expression can be issued in: every mode in which text may legally
+   continue, under every stack of depth <= 2 *)
+Definition frag_stacks : list (list frame) :=
+  [[]; [FObj]; [FArr]; [FObj; FObj]; [FObj; FArr]; [FArr; FObj]; [FArr; FArr]].
+Definition frag_modes : list mode :=
+  [MValue; MArrStart; MObjStart; MKey; MColon; MAfter; MStr false SPlain; MStr true SPlain].
+Definition frag_starts : list jstate :=
+  flat_map (fun st => map (fun m => (m, st)) frag_modes) frag_stacks.
+
+(* the fragment is a legal continuation of a JSON text in at least one context: every raw-text
+   hole sits inside a string literal, every value hole in value position, quotes and escapes balanced *)
+Definition frag_ok (t : tmpl) : bool :=
+  existsb (fun q => match trun t q with Some _ => true | None => false end) frag_starts.
